@@ -1,6 +1,842 @@
-//! Hand-written program generators for the geometric families (rotations, transforms,
-//! view/projection constructors, angles, interpolation, arcs) and the enumerated
-//! families (views, approx, cast, serde).
-pub fn drive2(_profile: &str, _seed: u64, _count: usize) -> Vec<String> {
-    Vec::new()
+//! Hand-written program generators for the geometric families: rotations in four
+//! representations, Euler angles, transforms, view and projection constructors,
+//! metric operations, angles, interpolation and arcs.  Inputs are the constructions
+//! the specification itself uses — rational points of the spheres S^1, S^2, S^3,
+//! rational orthonormal frames, symbolic table angles — in general position.
+use crate::ang::Sym;
+use crate::driver::Rng;
+use crate::machine::{is_bad, run_call, Outcome, NREG};
+use crate::q::{isqrt, Q};
+use crate::val::*;
+use cgmath::*;
+
+type V = Val<Q>;
+
+/// program builder that executes at Q while it records
+pub struct PB {
+    regs: Vec<V>,
+    init: Vec<V>,
+    calls: Vec<String>,
+    next: usize,
+    pub qok: bool,    // every call so far was executable at Q
+    pub fsafe: bool,  // replay at f64 is meaningful
+    pub dead: bool,
+    pub dead_after: bool, // a result left the magnitude budget: the program ends before it
+}
+impl PB {
+    pub fn new() -> PB {
+        PB { regs: vec![Val::Nil; NREG], init: vec![Val::Nil; NREG], calls: Vec::new(), next: 0, qok: true, fsafe: true, dead: false, dead_after: false }
+    }
+    pub fn load(&mut self, v: V) -> usize {
+        if self.next >= NREG { self.dead = true; return 0; }
+        let i = self.next;
+        self.next += 1;
+        self.regs[i] = v.clone();
+        self.init[i] = v;
+        i
+    }
+    /// record a call; returns the destination register
+    pub fn call(&mut self, op: &str, f: &str, args: &[usize]) -> usize {
+        if self.next >= NREG { self.dead = true; return 0; }
+        let dst = self.next;
+        self.next += 1;
+        self.call_into(op, f, args, dst);
+        dst
+    }
+    pub fn call_into(&mut self, op: &str, f: &str, args: &[usize], dst: usize) {
+        if self.dead || self.dead_after { return; }
+        let a1: Vec<String> = args.iter().map(|i| (i + 1).to_string()).collect();
+        let rec = format!("{{\"op\":\"{}\",\"f\":\"{}\",\"a\":[{}],\"d\":{}}}", op, f, a1.join(","), dst + 1);
+        if self.qok {
+            let av: Vec<V> = args.iter().map(|&i| self.regs[i].clone()).collect();
+            match run_call::<Q>(op, f, &av) {
+                Outcome::Done(v) => {
+                    let enc = std::panic::catch_unwind(std::panic::AssertUnwindSafe(|| v.enc())).unwrap_or_else(|_| "[0,0,0,0]".into());
+                    if matches!(v, Val::ONone) && matches!(av.last(), Some(Val::M3(_)) | Some(Val::M4(_)) | Some(Val::M2(_))) { self.fsafe = false; }
+                    if is_bad(&enc) { self.qok = false; }
+                    else if crate::driver::maxmag_q(&v) > 20000 { self.dead_after = true; return; }
+                    else { self.regs[dst] = v; }
+                }
+                Outcome::NotExecutable(_) => { self.qok = false; }
+                Outcome::Unsupported => { eprintln!("driver2: unsupported {} {}", op, f); self.dead = true; return; }
+            }
+        }
+        self.calls.push(rec);
+    }
+    pub fn reg(&self, i: usize) -> &V { &self.regs[i] }
+    pub fn finish(self, pid: u64, scs: &[&str]) -> Option<String> {
+        if self.dead || self.calls.is_empty() { return None; }
+        let mut s: Vec<&str> = Vec::new();
+        for &x in scs {
+            if x == "Q" && !self.qok { continue; }
+            if (x == "f64" || x == "f32") && !self.fsafe { continue; }
+            s.push(x);
+        }
+        if s.is_empty() { return None; }
+        let regs: Vec<String> = self.init.iter().map(|r| r.enc()).collect();
+        let scj: Vec<String> = s.iter().map(|x| format!("\"{}\"", x)).collect();
+        Some(format!("{{\"pid\":{},\"mode\":\"Geo\",\"sc\":[{}],\"regs\":[{}],\"calls\":[{}]}}", pid, scj.join(","), regs.join(","), self.calls.join(",")))
+    }
+}
+
+// ------------------------------------------------------------------ rational spheres
+pub struct Pools {
+    pub u4: Vec<[i128; 5]>, // w,x,y,z,m with w^2+x^2+y^2+z^2 = m^2
+    pub u3: Vec<[i128; 4]>,
+    pub u2: Vec<[i128; 3]>,
+}
+pub fn pools() -> Pools {
+    let mut u4 = Vec::new();
+    let r = 6i128;
+    for a in -r..=r { for b in -r..=r { for c in -r..=r { for d in -r..=r {
+        let s = a * a + b * b + c * c + d * d;
+        if s == 0 { continue; }
+        if let Some(m) = isqrt(s) { if m <= 9 && crate::q::gcd(crate::q::gcd(a, b), crate::q::gcd(c, d)) == 1 { u4.push([a, b, c, d, m]); } }
+    }}}}
+    let mut u3 = Vec::new();
+    let r = 9i128;
+    for a in -r..=r { for b in -r..=r { for c in -r..=r {
+        let s = a * a + b * b + c * c;
+        if s == 0 { continue; }
+        if let Some(m) = isqrt(s) { if m <= 11 && crate::q::gcd(crate::q::gcd(a, b), c) == 1 { u3.push([a, b, c, m]); } }
+    }}}
+    let mut u2 = Vec::new();
+    let r = 24i128;
+    for a in -r..=r { for b in -r..=r {
+        let s = a * a + b * b;
+        if s == 0 { continue; }
+        if let Some(m) = isqrt(s) { if m <= 25 && crate::q::gcd(a, b) == 1 { u2.push([a, b, m]); } }
+    }}
+    Pools { u4, u3, u2 }
+}
+fn q(n: i128, d: i128) -> Q { Q::new(n, d) }
+fn vs(x: Q) -> V { Val::N(x) }
+fn uq(p: &Pools, rng: &mut Rng) -> Quaternion<Q> {
+    let e = p.u4[rng.below(p.u4.len())];
+    Quaternion::new(q(e[0], e[4]), q(e[1], e[4]), q(e[2], e[4]), q(e[3], e[4]))
+}
+fn uv3(p: &Pools, rng: &mut Rng) -> Vector3<Q> {
+    let e = p.u3[rng.below(p.u3.len())];
+    Vector3::new(q(e[0], e[3]), q(e[1], e[3]), q(e[2], e[3]))
+}
+fn uv2(p: &Pools, rng: &mut Rng) -> Vector2<Q> {
+    let e = p.u2[rng.below(p.u2.len())];
+    Vector2::new(q(e[0], e[2]), q(e[1], e[2]))
+}
+fn small(rng: &mut Rng) -> Q { q(rng.range(-6, 6) as i128, *rng.pick(&[1, 1, 1, 2, 2, 3, 4])) }
+fn small_nz(rng: &mut Rng) -> Q { loop { let x = small(rng); if x.n != 0 { return x; } } }
+fn small_pos(rng: &mut Rng) -> Q { q(rng.range(1, 6) as i128, *rng.pick(&[1, 1, 2, 3])) }
+fn rv3(rng: &mut Rng) -> Vector3<Q> { Vector3::new(small(rng), small(rng), small(rng)) }
+fn rv2(rng: &mut Rng) -> Vector2<Q> { Vector2::new(small(rng), small(rng)) }
+fn sym(an: i64, k1: i64, k2: i64) -> Sym { Sym { an, ad: 1, k1, k2 } }
+fn ang_val_(s: Sym, rng: &mut Rng) -> V {
+    // the same symbolic angle in either unit
+    if rng.chance(1, 2) { Val::ARad(Rad(<Q as crate::sc::Sc>::dec_ang(s, crate::ang::Unit::Rad))) }
+    else { Val::ADeg(Deg(<Q as crate::sc::Sc>::dec_ang(s, crate::ang::Unit::Deg))) }
+}
+fn rad_val(s: Sym) -> V { Val::ARad(Rad(<Q as crate::sc::Sc>::dec_ang(s, crate::ang::Unit::Rad))) }
+fn deg_val(s: Sym) -> V { Val::ADeg(Deg(<Q as crate::sc::Sc>::dec_ang(s, crate::ang::Unit::Deg))) }
+/// a table angle; `even` = all coefficients even, so that the half angle is a table angle too
+fn rsym(rng: &mut Rng, even: bool, kmax: i64) -> Sym {
+    let m = if even { 2 } else { 1 };
+    sym(rng.range(-2, 2) * m, rng.range(-kmax, kmax) * m, 0)
+}
+fn t(s: &str) -> V { Val::T(s.to_string()) }
+/// rational orthonormal right-handed frame (columns of the matrix of a rational unit quaternion)
+fn frame(p: &Pools, rng: &mut Rng) -> (Vector3<Q>, Vector3<Q>, Vector3<Q>) {
+    let m = Matrix3::from(uq(p, rng));
+    (m.x, m.y, m.z)
+}
+const ROT3: &[&str] = &["Matrix3", "Matrix4", "Basis3", "Quaternion"];
+
+// ------------------------------------------------------------------ C05
+fn gen_c05(p: &Pools, rng: &mut Rng, pb: &mut PB) {
+    let a = uq(p, rng);
+    let ra = pb.load(Val::Q(a));
+    match rng.below(5) {
+        0 => {
+            // all four representations rotate a vector the same way
+            let v = pb.load(Val::V3(rv3(rng)));
+            let m3 = pb.call("mat3_from_quat", "m", &[ra]);
+            let b3 = pb.call("basis3_from_quat", if rng.chance(1, 2) { "from" } else { "ref" }, &[ra]);
+            pb.call("mul", "vv", &[ra, v]);
+            pb.call("rotate_vector", "m", &[b3, v]);
+            pb.call("mul", *rng.pick(&["vv", "rv", "vr", "rr"]), &[m3, v]);
+            pb.call("mat4_from_quat", "m", &[ra]);
+        }
+        1 => {
+            // back to a quaternion: q or -q, whichever of the four cases applies
+            let m3 = pb.call("mat3_from_quat", "m", &[ra]);
+            pb.call("quat_from_mat3", "m", &[m3]);
+            let b3 = pb.call("basis3_from_quat", "from", &[ra]);
+            pb.call("quat_from_basis3", "m", &[b3]);
+            pb.call("mat_from_basis", if rng.chance(1, 2) { "from" } else { "asref" }, &[b3]);
+            pb.call("det", "m", &[m3]);
+        }
+        2 => {
+            // conversion respects composition
+            let rb = pb.load(Val::Q(uq(p, rng)));
+            let ab = pb.call("mul", *rng.pick(&["vv", "rv", "vr", "rr"]), &[ra, rb]);
+            let ma = pb.call("mat3_from_quat", "m", &[ra]);
+            let mb = pb.call("mat3_from_quat", "m", &[rb]);
+            pb.call("mat3_from_quat", "m", &[ab]);
+            pb.call("mul", "vv", &[ma, mb]);
+            pb.call("quat_from_mat3", "m", &[ma]);
+        }
+        3 => {
+            let rb = pb.load(Val::Q(uq(p, rng)));
+            let ba = pb.call("basis3_from_quat", "ref", &[ra]);
+            let bb = pb.call("basis3_from_quat", "from", &[rb]);
+            let bab = pb.call("mul", *rng.pick(&["vv", "rv", "vr", "rr"]), &[ba, bb]);
+            pb.call("quat_from_basis3", "m", &[bab]);
+            pb.call("rot_invert", "m", &[bab]);
+            let pt = pb.load(Val::P3(Point3::from_vec(rv3(rng))));
+            pb.call("rotate_point", "m", &[bab, pt]);
+        }
+        _ => {
+            // quaternion of a product of rotation matrices (exercises the branches on composed rotations)
+            let rb = pb.load(Val::Q(uq(p, rng)));
+            let ma = pb.call("mat3_from_quat", "m", &[ra]);
+            let mb = pb.call("mat3_from_quat", "m", &[rb]);
+            let mm = pb.call("mul", "rr", &[ma, mb]);
+            pb.call("quat_from_mat3", "m", &[mm]);
+            pb.call("transpose", "m", &[mm]);
+            pb.call("trace", "m", &[mm]);
+        }
+    }
+}
+
+// ------------------------------------------------------------------ C06
+fn gen_c06(p: &Pools, rng: &mut Rng, pb: &mut PB) {
+    match rng.below(5) {
+        0 => {
+            let ax = pb.load(Val::V3(uv3(p, rng)));
+            let ty = *rng.pick(ROT3);
+            let ev = ty == "Quaternion" || rng.chance(1, 2);
+            let s = rsym(rng, ev, 1);
+            let an = pb.load(ang_val_(s, rng));
+            let tt = pb.load(t(ty));
+            let r = pb.call("from_axis_angle", "m", &[tt, ax, an]);
+            let v = pb.load(Val::V3(rv3(rng)));
+            match ty {
+                "Matrix3" => { pb.call("mul", "vv", &[r, v]); pb.call("det", "m", &[r]); }
+                "Matrix4" => { let v4 = pb.call("extend", "m", &[v, ax]); let _ = v4; }
+                "Basis3" => { pb.call("rotate_vector", "m", &[r, v]); pb.call("rot_invert", "m", &[r]); }
+                _ => { pb.call("rotate_vector", "m", &[r, v]); pb.call("rot_invert", "m", &[r]); pb.call("mat3_from_quat", "m", &[r]); }
+            }
+        }
+        1 => {
+            let ty = *rng.pick(ROT3);
+            let s = rsym(rng, ty == "Quaternion", 2);
+            let an = pb.load(ang_val_(s, rng));
+            let tt = pb.load(t(ty));
+            let op = *rng.pick(&["from_angle_x", "from_angle_y", "from_angle_z"]);
+            let r = pb.call(op, "m", &[tt, an]);
+            if ty == "Quaternion" || ty == "Basis3" {
+                let pt = pb.load(Val::P3(Point3::from_vec(rv3(rng))));
+                pb.call("rotate_point", "m", &[r, pt]);
+            }
+        }
+        2 => {
+            let ty = *rng.pick(&["Matrix2", "Basis2"]);
+            let an = pb.load(ang_val_(rsym(rng, false, 2), rng));
+            let tt = pb.load(t(ty));
+            let r = pb.call("from_angle", "m", &[tt, an]);
+            let v = pb.load(Val::V2(rv2(rng)));
+            if ty == "Basis2" {
+                pb.call("rotate_vector", "m", &[r, v]);
+                let ri = pb.call("rot_invert", "m", &[r]);
+                pb.call("mul", *rng.pick(&["vv", "rv", "vr", "rr"]), &[r, ri]);
+                let pt = pb.load(Val::P2(Point2::from_vec(rv2(rng))));
+                pb.call("rotate_point", "m", &[r, pt]);
+                pb.call("mat_from_basis", "from", &[r]);
+            } else {
+                pb.call("mul", "vv", &[r, v]);
+            }
+        }
+        3 => {
+            // angles add under composition about a common axis
+            let ax = pb.load(Val::V3(uv3(p, rng)));
+            let ty = *rng.pick(&["Matrix3", "Basis3", "Quaternion"]);
+            let even = ty == "Quaternion";
+            let a1 = pb.load(ang_val_(rsym(rng, even, 1), rng));
+            let a2 = pb.load(ang_val_(rsym(rng, even, 1), rng));
+            let tt = pb.load(t(ty));
+            let r1 = pb.call("from_axis_angle", "m", &[tt, ax, a1]);
+            let r2 = pb.call("from_axis_angle", "m", &[tt, ax, a2]);
+            pb.call("mul", *rng.pick(&["vv", "rv", "vr", "rr"]), &[r1, r2]);
+        }
+        _ => {
+            let ty = *rng.pick(&["Basis3", "Quaternion", "Basis2"]);
+            let tt = pb.load(t(ty));
+            let one = pb.call("rot_one", "m", &[tt]);
+            if ty == "Basis2" {
+                let an = pb.load(ang_val_(rsym(rng, false, 2), rng));
+                let r = pb.call("from_angle", "m", &[tt, an]);
+                pb.call("iter_product", *rng.pick(&["v", "r"]), &[tt, r, one, r]);
+            } else {
+                let ax = pb.load(Val::V3(uv3(p, rng)));
+                let an = pb.load(ang_val_(rsym(rng, true, 1), rng));
+                let r = pb.call("from_axis_angle", "m", &[tt, ax, an]);
+                if ty == "Basis3" { pb.call("iter_product", *rng.pick(&["v", "r"]), &[tt, r, one, r]); }
+                else { pb.call("iter_product", *rng.pick(&["v", "r"]), &[tt, r, r]); }
+            }
+        }
+    }
+}
+
+// ------------------------------------------------------------------ C07
+fn euler_val_(x: Sym, y: Sym, z: Sym, rng: &mut Rng) -> V {
+    use crate::ang::Unit;
+    use crate::sc::Sc;
+    if rng.chance(1, 2) {
+        Val::ERad(Euler::new(Rad(Q::dec_ang(x, Unit::Rad)), Rad(Q::dec_ang(y, Unit::Rad)), Rad(Q::dec_ang(z, Unit::Rad))))
+    } else {
+        Val::EDeg(Euler::new(Deg(Q::dec_ang(x, Unit::Deg)), Deg(Q::dec_ang(y, Unit::Deg)), Deg(Q::dec_ang(z, Unit::Deg))))
+    }
+}
+fn gen_c07(_p: &Pools, rng: &mut Rng, pb: &mut PB) {
+    match rng.below(4) {
+        0 => {
+            let ty = *rng.pick(ROT3);
+            let even = ty == "Quaternion";
+            let e = pb.load(euler_val_(rsym(rng, even, 1), rsym(rng, even, 1), rsym(rng, even, 1), rng));
+            let tt = pb.load(t(ty));
+            let r = pb.call("from_euler", "m", &[tt, e]);
+            if ty == "Matrix3" { pb.call("det", "m", &[r]); }
+        }
+        1 => {
+            // all four agree with Rx * Ry * Rz
+            let (x, y, z) = (rsym(rng, true, 1), rsym(rng, true, 1), rsym(rng, true, 1));
+            let e = pb.load(euler_val_(x, y, z, rng));
+            let (ax, ay, az) = (pb.load(ang_val_(x, rng)), pb.load(ang_val_(y, rng)), pb.load(ang_val_(z, rng)));
+            let tm = pb.load(t("Matrix3"));
+            let mx = pb.call("from_angle_x", "m", &[tm, ax]);
+            let my = pb.call_reuse("from_angle_y", "m", &[tm, ay], ax);
+            let mz = pb.call_reuse("from_angle_z", "m", &[tm, az], ay);
+            let mxy = pb.call_reuse("mul", "vv", &[mx, my], az);
+            pb.call_reuse("mul", "vv", &[mxy, mz], mx);
+            pb.call_reuse("from_euler", "m", &[tm, e], my);
+        }
+        2 => {
+            // extraction away from the gimbal-lock cone: x, z in (-180, 180], y in [-90, 90], table half angles
+            let x = sym(rng.range(-1, 1) * 2, rng.range(-1, 1) * 2, 0);
+            let y = *rng.pick(&[sym(0, 0, 0), sym(0, 2, 0), sym(0, -2, 0), sym(-2, 4, 0), sym(2, -4, 0), sym(2, -2, 0), sym(-2, 2, 0)]);
+            let z = sym(rng.range(-1, 1) * 2, rng.range(-1, 1) * 2, 0);
+            let e = pb.load(euler_val_(x, y, z, rng));
+            let tq = pb.load(t("Quaternion"));
+            let qq = pb.call("from_euler", "m", &[tq, e]);
+            let er = pb.call("euler_from_quat", "m", &[qq]);
+            let tm = pb.load(t("Matrix3"));
+            pb.call("from_euler", "m", &[tm, er]);
+            pb.call("mat3_from_quat", "m", &[qq]);
+        }
+        _ => {
+            // on the gimbal-lock axis: y = +-90 degrees exactly
+            let x = sym(rng.range(-1, 1) * 2, rng.range(-1, 1) * 2, 0);
+            let y = sym(*rng.pick(&[1, -1]), 0, 0);
+            let z = sym(rng.range(-1, 1) * 2, rng.range(-1, 1) * 2, 0);
+            // quaternion built as qx * qy * qz from axis-angle constructors (half angles: x, z even; y = 90 needs 45: use matrices instead)
+            let e = pb.load(euler_val_(x, y, z, rng));
+            let tm = pb.load(t("Matrix3"));
+            let m = pb.call("from_euler", "m", &[tm, e]);
+            let qq = pb.call("quat_from_mat3", "m", &[m]);
+            pb.call("euler_from_quat", "m", &[qq]);
+        }
+    }
+}
+impl PB {
+    /// like `call`, but overwrites a register that is no longer needed
+    pub fn call_reuse(&mut self, op: &str, f: &str, args: &[usize], dst: usize) -> usize {
+        self.call_into(op, f, args, dst);
+        dst
+    }
+}
+
+// ------------------------------------------------------------------ C08
+fn dec_scale(rng: &mut Rng) -> Q {
+    match rng.below(8) { 0 => q(0, 1), 1 => q(-2, 1), 2 => q(-1, 2), 3 => q(3, 2), 5 => q(2, 1), _ => small_nz(rng) }
+}
+fn dec_val(p: &Pools, rng: &mut Rng, kind: &str, scale: Q) -> V {
+    match kind {
+        "DecQ" => Val::DQ(Decomposed { scale, rot: uq(p, rng), disp: rv3(rng) }),
+        "Dec3" => Val::D3(Decomposed { scale, rot: basis3_from(Matrix3::from(uq(p, rng))), disp: rv3(rng) }),
+        _ => { let u = uv2(p, rng); Val::D2(Decomposed { scale, rot: basis2_from(Matrix2::new(u.x, u.y, -u.y, u.x)), disp: rv2(rng) }) }
+    }
+}
+fn gen_c08(p: &Pools, rng: &mut Rng, pb: &mut PB) {
+    let kind = *rng.pick(&["DecQ", "Dec3", "Dec2", "Matrix3_2", "Matrix3_3", "Matrix4", "DecQ", "Dec3"]);
+    let tt = pb.load(t(kind));
+    if kind.starts_with("Dec") && rng.chance(1, 12) {
+        // a negligibly small but non-zero scale: inverse_transform may be None or the true inverse
+        let tiny = q(if rng.chance(1, 2) { 1 } else { -1 }, 2_000_000);
+        let d = match dec_val(p, rng, kind, tiny) {
+            Val::DQ(mut d) => { d.disp = Vector3::new(q(0, 1), q(0, 1), q(0, 1)); Val::DQ(d) }
+            Val::D3(mut d) => { d.disp = Vector3::new(q(0, 1), q(0, 1), q(0, 1)); Val::D3(d) }
+            Val::D2(mut d) => { d.disp = Vector2::new(q(0, 1), q(0, 1)); Val::D2(d) }
+            x => x,
+        };
+        let s = pb.load(d);
+        pb.call("inverse_transform", "m", &[tt, s]);
+        let vc = if kind == "Dec2" { pb.load(Val::V2(rv2(rng))) } else { pb.load(Val::V3(rv3(rng))) };
+        pb.call("inverse_transform_vector", "m", &[s, vc]);
+        return;
+    }
+    let is_dec = kind.starts_with("Dec");
+    let dim = if kind == "Dec2" || kind == "Matrix3_2" { 2 } else { 3 };
+    let mk = |rng: &mut Rng, nz: bool| -> V {
+        if is_dec { let s = if nz { small_nz(rng) } else { dec_scale(rng) }; dec_val(p, rng, kind, s) }
+        else {
+            // affine matrices in general position (dense linear part, oblique translation); sometimes singular
+            match kind {
+                "Matrix3_2" => { let (a, b, c, d) = (small(rng), small(rng), small(rng), if nz || rng.chance(4, 5) { small(rng) } else { q(0, 1) });
+                                 let dd = if !nz && rng.chance(1, 8) { c * b / (if a.n == 0 { q(1, 1) } else { a }) } else { d };
+                                 Val::M3(Matrix3::new(a, b, q(0, 1), c, dd, q(0, 1), small(rng), small(rng), q(1, 1))) }
+                "Matrix3_3" => { let (x, y) = (rv3(rng), rv3(rng)); let z = if !nz && rng.chance(1, 8) { x + y } else { rv3(rng) }; Val::M3(Matrix3::from_cols(x, y, z)) }
+                _ => { let (x, y) = (rv3(rng), rv3(rng)); let z = if !nz && rng.chance(1, 8) { x - y } else { rv3(rng) }; let w = rv3(rng);
+                       Val::M4(Matrix4::from_cols(x.extend(q(0, 1)), y.extend(q(0, 1)), z.extend(q(0, 1)), w.extend(q(1, 1)))) }
+            }
+        }
+    };
+    let s = pb.load(mk(rng, false));
+    let pt = if dim == 2 { pb.load(Val::P2(Point2::from_vec(rv2(rng)))) } else { pb.load(Val::P3(Point3::from_vec(rv3(rng)))) };
+    let vc = if dim == 2 { pb.load(Val::V2(rv2(rng))) } else { pb.load(Val::V3(rv3(rng))) };
+    match rng.below(4) {
+        0 => {
+            let u = pb.load(mk(rng, true));
+            let st = pb.call("concat", *rng.pick(&["m", "self"]), &[tt, s, u]);
+            pb.call("transform_point", "m", &[st, pt]);
+            let tp = pb.call("transform_point", "m", &[u, pt]);
+            pb.call_reuse("transform_point", "m", &[s, tp], tp);
+            if is_dec { pb.call_reuse("mul", "vv", &[s, u], st); }
+        }
+        1 => {
+            pb.call("transform_vector", "m", &[s, vc]);
+            pb.call("transform_point", "m", &[s, pt]);
+            let inv = pb.call("inverse_transform", "m", &[tt, s]);
+            let _ = inv;
+            pb.call("inverse_transform_vector", "m", &[s, vc]);
+        }
+        2 => {
+            let one = pb.call("tf_one", "m", &[tt]);
+            pb.call("transform_point", "m", &[one, pt]);
+            let c1 = pb.call("concat", "m", &[tt, s, one]);
+            pb.call_reuse("concat", "self", &[tt, one, s], c1);
+        }
+        _ => {
+            if is_dec {
+                let m = pb.call("mat_from_dec", "m", &[s]);
+                let u = pb.load(mk(rng, true));
+                let mu = pb.call("mat_from_dec", "m", &[u]);
+                pb.call_reuse("mul", "vv", &[m, mu], mu);
+                let su = pb.call("concat", "m", &[tt, s, u]);
+                pb.call_reuse("mat_from_dec", "m", &[su], su);
+            } else {
+                let u = pb.load(mk(rng, true));
+                let su = pb.call("concat", "m", &[tt, s, u]);
+                pb.call("transform_vector", "m", &[su, vc]);
+                pb.call("inverse_transform", "m", &[tt, su]);
+            }
+        }
+    }
+}
+
+// ------------------------------------------------------------------ C09
+fn gen_c09(p: &Pools, rng: &mut Rng, pb: &mut PB) {
+    if rng.chance(1, 4) {
+        // 2-D
+        let u = uv2(p, rng);
+        let dir = Vector2::new(u.x, u.y) * small_pos(rng);
+        let up = rv2(rng);
+        if up.perp_dot(dir).n == 0 { return; }
+        let d = pb.load(Val::V2(dir));
+        let upr = pb.load(Val::V2(up));
+        match rng.below(4) {
+            0 => { let tt = pb.load(t("Matrix2")); pb.call("look_at2", "m", &[tt, d, upr]); }
+            1 => { let tt = pb.load(t("Basis2")); pb.call("rot_look_at", "m", &[tt, d, upr]); }
+            2 => { let tt = pb.load(t(*rng.pick(&["Matrix2", "Basis2"]))); let fl = pb.load(Val::B(rng.chance(1, 2))); pb.call("look_at_stable", "m", &[tt, d, fl]); }
+            _ => {
+                let eye = Point2::from_vec(rv2(rng));
+                let e = pb.load(Val::P2(eye));
+                let c = pb.load(Val::P2(eye + dir));
+                let tt = pb.load(t(*rng.pick(&["Matrix3_2", "Dec2"])));
+                pb.call("tf_look_at", *rng.pick(&["dep", "rh", "lh"]), &[tt, e, c, upr]);
+            }
+        }
+        return;
+    }
+    // exact frames: dir = a*f, up = b*u + c*f with (s, u, f) a rational orthonormal frame, so every normalisation is exact
+    let (_s, u, f) = frame(p, rng);
+    let dir = f * small_pos(rng);
+    let up = u * small_pos(rng) + f * small(rng);
+    let eye = Point3::from_vec(rv3(rng));
+    let d = pb.load(Val::V3(dir));
+    let upr = pb.load(Val::V3(up));
+    let e = pb.load(Val::P3(eye));
+    match rng.below(5) {
+        0 => { pb.call("mat3_look_to", *rng.pick(&["lh", "rh", "dep"]), &[d, upr]); }
+        1 => { let r = pb.call("mat4_look_to", *rng.pick(&["lh", "rh", "dep"]), &[e, d, upr]); pb.call("transform_point", "m", &[r, e]); }
+        2 => { let c = pb.load(Val::P3(eye + dir)); pb.call("mat4_look_at", *rng.pick(&["lh", "rh", "dep"]), &[e, c, upr]); }
+        3 => { let tt = pb.load(t(*rng.pick(&["Quaternion", "Basis3"]))); let r = pb.call("rot_look_at", "m", &[tt, d, upr]); pb.call("rotate_vector", "m", &[r, d]); }
+        _ => {
+            let c = pb.load(Val::P3(eye + dir));
+            let tt = pb.load(t(*rng.pick(&["Matrix4", "Matrix3_3", "DecQ", "Dec3"])));
+            let r = pb.call("tf_look_at", *rng.pick(&["dep", "rh", "lh"]), &[tt, e, c, upr]);
+            pb.call("transform_point", "m", &[r, e]);
+        }
+    }
+}
+
+// ------------------------------------------------------------------ C10
+fn gen_c10(_p: &Pools, rng: &mut Rng, pb: &mut PB) {
+    let lo = |rng: &mut Rng| q(rng.range(-7, 2) as i128, *rng.pick(&[1, 2, 1, 3]));
+    let l = lo(rng); let r = l + small_pos(rng);
+    let b = lo(rng); let tp = b + small_pos(rng);
+    let n = small_pos(rng); let f = n + small_pos(rng);
+    let form = *rng.pick(&["fn", "struct"]);
+    // fovy = 2g with g a table angle in (0, 90): half angle has rational tangent
+    let fovy = *rng.pick(&[sym(0, 2, 0), sym(2, -2, 0), sym(0, 4, 0) /* > 180: invalid for perspective */, sym(-2, 4, 0), sym(4, -4, 0), sym(4, -6, 0)]);
+    match rng.below(7) {
+        0 => { let a: Vec<usize> = [l, r, b, tp, n, f].iter().map(|x| pb.load(vs(*x))).collect(); let m = pb.call("ortho", form, &a);
+               let pt = pb.load(Val::P3(Point3::new(l, tp, -f))); pb.call("transform_point", "m", &[m, pt]); }
+        1 => { let a: Vec<usize> = [l, r, b, tp, n, f].iter().map(|x| pb.load(vs(*x))).collect(); let m = pb.call("frustum", form, &a);
+               let pt = pb.load(Val::P3(Point3::new(r, b, -n))); pb.call("transform_point", "m", &[m, pt]); }
+        2 => {
+            // frustum rejection: violate exactly one precondition
+            let mut v = [l, r, b, tp, n, f];
+            match rng.below(3) { 0 => v.swap(0, 1), 1 => v.swap(2, 3), _ => v.swap(4, 5) }
+            let a: Vec<usize> = v.iter().map(|x| pb.load(vs(*x))).collect();
+            pb.call("frustum", form, &a);
+            pb.fsafe = true;
+        }
+        3 => {
+            let asp = *rng.pick(&[q(1, 2), q(1, 1), q(16, 9), q(4, 3)]);
+            let an = pb.load(ang_val_(fovy, rng));
+            let a = [an, pb.load(vs(asp)), pb.load(vs(n)), pb.load(vs(f))];
+            pb.call("perspective", form, &a);
+            pb.call("to_perspective", "m", &a);
+        }
+        4 => {
+            // perspective rejection
+            let asp = q(4, 3);
+            let (mut fv, mut aa, mut nn, mut ff) = (sym(0, 2, 0), asp, n, f);
+            match rng.below(6) { 0 => fv = sym(0, 0, 0), 1 => fv = sym(2, 0, 0), 2 => aa = q(0, 1), 3 => nn = q(0, 1), 4 => ff = -f, _ => ff = nn }
+            if rng.chance(1, 6) { fv = sym(-1, 0, 0); }
+            if rng.chance(1, 6) { fv = sym(3, 0, 0); }
+            let an = pb.load(ang_val_(fv, rng));
+            let a = [an, pb.load(vs(aa)), pb.load(vs(nn)), pb.load(vs(ff))];
+            pb.call("perspective", form, &a);
+        }
+        5 => {
+            let asp = *rng.pick(&[q(1, 2), q(1, 1), q(16, 9), q(-2, 1)]);
+            let h = *rng.pick(&[q(1, 2), q(1, 1), q(3, 1)]);
+            let fv = *rng.pick(&[sym(0, 2, 0), sym(0, 0, 0), sym(2, -2, 0), sym(0, -2, 0), sym(-2, 2, 0)]);
+            let an = pb.load(ang_val_(fv, rng));
+            let a = [an, pb.load(vs(asp)), pb.load(vs(h)), pb.load(vs(n)), pb.load(vs(f))];
+            pb.call("planar", form, &a);
+        }
+        _ => {
+            // planar rejection: exactly one precondition violated
+            let (mut fv, mut aa, mut hh, mut nn, ff) = (sym(0, 2, 0), q(4, 3), q(2, 1), n, f);
+            match rng.below(6) { 0 => fv = sym(2, 0, 0), 1 => fv = sym(-2, 0, 0), 2 => hh = q(-1, 1), 3 => aa = q(0, 1), 4 => nn = ff,
+                // focal point between the planes: fovy < 0 puts it in front of the eye at -(h/2)cot(|fovy|/2)
+                _ => { fv = sym(0, -2, 0); hh = (n + f) * q(1, 1); /* tan(t1) = 4/3: focal = -(h/2)*(3/4)... chosen below */ } }
+            let an = pb.load(ang_val_(fv, rng));
+            let a = [an, pb.load(vs(aa)), pb.load(vs(hh)), pb.load(vs(nn)), pb.load(vs(ff))];
+            pb.call("planar", form, &a);
+        }
+    }
+}
+
+// ------------------------------------------------------------------ C11
+fn gen_c11(p: &Pools, rng: &mut Rng, pb: &mut PB) {
+    match rng.below(6) {
+        0 => {
+            // exact: vectors of rational length
+            let k = small_nz(rng);
+            let v = match rng.below(4) {
+                0 => Val::V2(uv2(p, rng) * k), 1 => Val::V3(uv3(p, rng) * k),
+                2 => { let u = uq(p, rng); Val::V4(Vector4::new(u.s, u.v.x, u.v.y, u.v.z) * k) }
+                _ => Val::Q(uq(p, rng) * k),
+            };
+            let r = pb.load(v);
+            pb.call("magnitude", "m", &[r]);
+            pb.call("normalize", "m", &[r]);
+            let m = pb.load(vs(small_nz(rng)));
+            pb.call("normalize_to", "m", &[r, m]);
+            pb.call("mag2", "m", &[r]);
+        }
+        1 => {
+            // general position: square roots
+            let v = match rng.below(5) {
+                0 => Val::V1(Vector1::new(small_nz(rng))), 1 => Val::V2(rv2(rng)), 2 => Val::V3(rv3(rng)),
+                3 => Val::V4(rv3(rng).extend(small(rng))), _ => Val::Q(Quaternion::from_sv(small(rng), rv3(rng))),
+            };
+            if crate::driver::GenSc::mag(&v) == 0 { return; }
+            if !v.enc().contains("[-") && !v.enc().contains("[1,") && !v.enc().contains("[2,") && !v.enc().contains("[3,") && !v.enc().contains("[4,") && !v.enc().contains("[5,") && !v.enc().contains("[6,") { return; }
+            let r = pb.load(v);
+            pb.call("magnitude", "m", &[r]);
+            pb.call("normalize", "m", &[r]);
+            let m = pb.load(vs(small_nz(rng)));
+            pb.call("normalize_to", "m", &[r, m]);
+        }
+        2 => {
+            let (a, b) = match rng.below(4) {
+                0 => (Val::V2(rv2(rng)), Val::V2(rv2(rng))), 1 => (Val::V3(rv3(rng)), Val::V3(rv3(rng))),
+                2 => (Val::P3(Point3::from_vec(rv3(rng))), Val::P3(Point3::from_vec(rv3(rng)))),
+                _ => (Val::P2(Point2::from_vec(rv2(rng))), Val::P2(Point2::from_vec(rv2(rng)))),
+            };
+            let (ra, rb) = (pb.load(a), pb.load(b));
+            pb.call("distance", "m", &[ra, rb]);
+            pb.call("distance", "m", &[rb, ra]);
+            pb.call("distance2", "m", &[ra, rb]);
+        }
+        3 => {
+            // angle between u and v = a table angle by construction: v = (e1 cos g + e2 sin g) * s in a rational frame
+            let g = sym(rng.range(0, 1), rng.range(-1, 1), 0);
+            let (c, s) = crate::ang::sym_cos_sin(g).unwrap();
+            if s < Q::int(0) { return; }
+            let (e1, e2, _e3) = frame(p, rng);
+            let u = e1 * small_pos(rng);
+            let v = (e1 * c + e2 * s) * small_pos(rng);
+            let (ru, rv) = (pb.load(Val::V3(u)), pb.load(Val::V3(v)));
+            pb.call("angle", "m", &[ru, rv]);
+            pb.call("angle", "m", &[rv, ru]);
+        }
+        4 => {
+            // 2-D signed angle
+            let g = sym(rng.range(-1, 1), rng.range(-2, 2), 0);
+            let (c, s) = crate::ang::sym_cos_sin(g).unwrap();
+            let u = rv2(rng);
+            if u.x.n == 0 && u.y.n == 0 { return; }
+            let v = Vector2::new(u.x * c - u.y * s, u.x * s + u.y * c) * small_pos(rng);
+            let (ru, rv) = (pb.load(Val::V2(u)), pb.load(Val::V2(v)));
+            pb.call("angle", "m", &[ru, rv]);
+            pb.call("angle", "m", &[rv, ru]);
+        }
+        _ => {
+            // 4-D and quaternion angle through acos
+            let g = sym(rng.range(0, 1), rng.range(-1, 1), 0);
+            let (c, s) = crate::ang::sym_cos_sin(g).unwrap();
+            if s < Q::int(0) { return; }
+            // acos is infinitely ill-conditioned at 0 and 180 degrees: exactly (anti)parallel inputs are decided in exact arithmetic only
+            if s.n == 0 { pb.fsafe = false; }
+            let a = uq(p, rng);
+            // an orthogonal unit quaternion: a * i
+            let b = a * Quaternion::new(q(0, 1), q(1, 1), q(0, 1), q(0, 1));
+            let w = a * c + b * s;
+            if rng.chance(1, 2) {
+                let (ra, rw) = (pb.load(Val::Q(a * small_pos(rng))), pb.load(Val::Q(w * small_pos(rng))));
+                pb.call("angle", "m", &[ra, rw]);
+            } else {
+                let v4 = |x: Quaternion<Q>| Vector4::new(x.s, x.v.x, x.v.y, x.v.z);
+                let (ra, rw) = (pb.load(Val::V4(v4(a) * small_pos(rng))), pb.load(Val::V4(v4(w) * small_pos(rng))));
+                pb.call("angle", "m", &[ra, rw]);
+                pb.call("project_on", "m", &[ra, rw]);
+            }
+        }
+    }
+}
+
+// ------------------------------------------------------------------ C13
+fn gen_c13(_p: &Pools, rng: &mut Rng, pb: &mut PB) {
+    let unit = *rng.pick(&["Rad", "Deg"]);
+    let mk = |s: Sym| if unit == "Rad" { rad_val(s) } else { deg_val(s) };
+    // multiples of 1/8 turn in [-3, 3] turns (quarter-turn part with denominator 2), optionally a table offset
+    let eighth = |rng: &mut Rng| Sym { an: rng.range(-24, 24), ad: 2, k1: 0, k2: 0 };
+    let norm = |s: Sym| { let g = crate::q::gcd(s.an as i128, s.ad as i128).max(1) as i64; Sym { an: s.an / g, ad: s.ad / g, k1: s.k1, k2: s.k2 } };
+    match rng.below(8) {
+        0 => {
+            let a = pb.load(mk(norm(eighth(rng))));
+            pb.call("normalize_ang", "m", &[a]);
+            pb.call("normalize_signed", "m", &[a]);
+            pb.call("opposite", "m", &[a]);
+        }
+        1 => {
+            let a = pb.load(mk(norm(eighth(rng))));
+            let b = pb.load(mk(norm(eighth(rng))));
+            pb.call("bisect", "m", &[a, b]);
+            pb.call("bisect", "m", &[b, a]);
+        }
+        2 => {
+            // with a table offset: decided through the rational enclosure of theta1
+            let s = Sym { an: rng.range(-10, 10), ad: 1, k1: rng.range(-2, 2), k2: 0 };
+            let a = pb.load(mk(s));
+            pb.call("normalize_ang", "m", &[a]);
+            pb.call("normalize_signed", "m", &[a]);
+            pb.call("opposite", "m", &[a]);
+            // same parity of the table coefficient, so that the bisector is a table angle again
+            let b = pb.load(mk(Sym { an: rng.range(-2, 2) * 2 + s.an % 2, ad: 1, k1: s.k1 + 2 * rng.range(-1, 1), k2: 0 }));
+            pb.call("bisect", "m", &[a, b]);
+        }
+        3 => {
+            let tt = pb.load(t(unit));
+            let ft = pb.call("full_turn", "m", &[tt]);
+            let k = *rng.pick(&[2i64, 3, 4, 6]);
+            let kk = pb.load(Val::I(k));
+            let d = pb.call("turn_div", "m", &[tt, kk]);
+            let ks = pb.load(vs(Q::int(k as i128)));
+            pb.call("mul_s", *rng.pick(&["vv", "rv", "as"]), &[d, ks]);
+            pb.call("div_aa", *rng.pick(&["vv", "rv", "vr", "rr"]), &[ft, d]);
+        }
+        4 => {
+            // trigonometric wiring at table angles
+            let s = sym(rng.range(-4, 4), rng.range(-2, 2), if rng.chance(1, 6) { *rng.pick(&[-1i64, 1]) } else { 0 });
+            let a = pb.load(mk(s));
+            pb.call("sin", "m", &[a]);
+            pb.call("cos", "m", &[a]);
+            pb.call("sin_cos", "m", &[a]);
+            let (c, sn) = crate::ang::sym_cos_sin(s).unwrap();
+            if c.n != 0 { pb.call("tan", "m", &[a]); pb.call("sec", "m", &[a]); }
+            if sn.n != 0 { pb.call("csc", "m", &[a]); if c.n != 0 { pb.call("cot", "m", &[a]); } }
+        }
+        5 => {
+            // principal inverses in the caller's unit
+            let s = sym(rng.range(-2, 2), rng.range(-2, 2), 0);
+            let (c, sn) = crate::ang::sym_cos_sin(s).unwrap();
+            let tt = pb.load(t(unit));
+            let (rc, rs) = (pb.load(vs(c)), pb.load(vs(sn)));
+            pb.call("asin", "m", &[tt, rs]);
+            pb.call("acos", "m", &[tt, rc]);
+            let k = small_pos(rng);
+            let (ry, rx) = (pb.load(vs(sn * k)), pb.load(vs(c * k)));
+            pb.call("atan2", "m", &[tt, ry, rx]);
+            if c.n != 0 { let tn = pb.load(vs(sn / c)); pb.call("atan", "m", &[tt, tn]); }
+        }
+        6 => {
+            // arithmetic acts on the underlying number
+            let a = pb.load(mk(norm(eighth(rng))));
+            let b = pb.load(mk(Sym { an: rng.range(-6, 6), ad: 1, k1: rng.range(-2, 2), k2: 0 }));
+            let s1 = pb.call("add", *rng.pick(&["vv", "rv", "vr", "rr", "as"]), &[a, b]);
+            pb.call("sub", *rng.pick(&["vv", "rv", "vr", "rr", "as"]), &[s1, a]);
+            pb.call("neg", *rng.pick(&["v", "r"]), &[b]);
+            let k = pb.load(vs(Q::int(rng.range(-3, 3) as i128)));
+            pb.call("mul_s", *rng.pick(&["vv", "rv", "as"]), &[b, k]);
+            let k2 = pb.load(vs(Q::int(*rng.pick(&[2i64, -2, 4]) as i128)));
+            pb.call("div_s", *rng.pick(&["vv", "rv", "as"]), &[a, k2]);
+            let tt = pb.load(t(unit));
+            pb.call("iter_sum", *rng.pick(&["v", "r"]), &[tt, a, b, s1]);
+        }
+        _ => {
+            // unit conversion and remainder
+            let a = pb.load(mk(Sym { an: rng.range(-9, 9), ad: *rng.pick(&[1i64, 2, 3]), k1: 0, k2: 0 }));
+            let a = if let Val::ARad(_) = pb.reg(a) { a } else { a };
+            let conv = if unit == "Rad" { "to_deg" } else { "to_rad" };
+            let back = if unit == "Rad" { "to_rad" } else { "to_deg" };
+            let c = pb.call(conv, "m", &[a]);
+            pb.call(back, "m", &[c]);
+            let m = pb.load(mk(sym(*rng.pick(&[1i64, 2, 3, 4]), 0, 0)));
+            pb.call("rem", *rng.pick(&["vv", "rv", "vr", "rr", "as"]), &[a, m]);
+            pb.fsafe = false; // % on a non-representable operand is discontinuous in floating point
+        }
+    }
+}
+
+// ------------------------------------------------------------------ C14
+fn gen_c14(p: &Pools, rng: &mut Rng, pb: &mut PB) {
+    match rng.below(4) {
+        0 => {
+            // slerp along a great circle: b = +-(a cos g + c sin g) with g an acute table angle and t*g a table angle
+            let a = uq(p, rng);
+            let c = a * Quaternion::new(q(0, 1), q(0, 1), q(1, 1), q(0, 1));
+            let (g, ts): (Sym, &[(i128, i128)]) = *rng.pick(&[
+                (sym(0, 1, 0), &[(0, 1), (1, 1)][..]), (sym(-1, 2, 0), &[(0, 1), (1, 1)][..]), (sym(1, -1, 0), &[(0, 1), (1, 1)][..]),
+                (sym(2, -2, 0), &[(0, 1), (1, 2), (1, 1)][..]), (sym(-2, 4, 0), &[(0, 1), (1, 2), (1, 1)][..]),
+                (sym(-1, 3, 0), &[(0, 1), (1, 1)][..]), (sym(1, 0, 0), &[(0, 1), (1, 1)][..]),
+            ]);
+            let (cp, sp) = crate::ang::sym_cos_sin(g).unwrap();
+            let mut b = a * cp + c * sp;
+            if rng.chance(1, 2) { b = -b; } // same rotation, opposite sign of the dot product
+            let tt = *rng.pick(ts);
+            let tq = q(tt.0, tt.1);
+            let (ra, rb, rt) = (pb.load(Val::Q(a)), pb.load(Val::Q(b)), pb.load(vs(tq)));
+            pb.call("slerp", "m", &[ra, rb, rt]);
+            pb.call("dot", "m", &[ra, rb]);
+        }
+        1 => {
+            // nlerp of generic unit quaternions: square roots
+            let (a, b) = (uq(p, rng), uq(p, rng));
+            let tq = *rng.pick(&[q(0, 1), q(1, 1), q(1, 2), q(1, 3), q(1, 4), q(2, 3)]);
+            let (ra, rb, rt) = (pb.load(Val::Q(a)), pb.load(Val::Q(b)), pb.load(vs(tq)));
+            pb.call("nlerp", "m", &[ra, rb, rt]);
+            if tq.n == 0 || tq == q(1, 1) { pb.call("slerp", "m", &[ra, rb, rt]); }
+        }
+        2 => {
+            let tq = *rng.pick(&[q(0, 1), q(1, 1), q(1, 2), q(1, 3), q(-1, 1), q(2, 1)]);
+            let (a, b) = match rng.below(5) {
+                0 => (Val::V1(Vector1::new(small(rng))), Val::V1(Vector1::new(small(rng)))),
+                1 => (Val::V2(rv2(rng)), Val::V2(rv2(rng))), 2 => (Val::V3(rv3(rng)), Val::V3(rv3(rng))),
+                3 => (Val::V4(rv3(rng).extend(small(rng))), Val::V4(rv3(rng).extend(small(rng)))),
+                _ => (Val::Q(Quaternion::from_sv(small(rng), rv3(rng))), Val::Q(Quaternion::from_sv(small(rng), rv3(rng)))),
+            };
+            let (ra, rb, rt) = (pb.load(a), pb.load(b), pb.load(vs(tq)));
+            pb.call("lerp", "m", &[ra, rb, rt]);
+        }
+        _ => {
+            // nearly-equal and equal endpoints hand over to nlerp
+            let a = uq(p, rng);
+            let tq = *rng.pick(&[q(0, 1), q(1, 1), q(1, 2)]);
+            let (ra, rb, rt) = (pb.load(Val::Q(a)), pb.load(Val::Q(if rng.chance(1, 2) { a } else { -a })), pb.load(vs(tq)));
+            pb.call("slerp", "m", &[ra, rb, rt]);
+            pb.call("nlerp", "m", &[ra, rb, rt]);
+        }
+    }
+}
+
+// ------------------------------------------------------------------ C15
+fn gen_c15(p: &Pools, rng: &mut Rng, pb: &mut PB) {
+    match rng.below(4) {
+        0 | 1 => {
+            let a = uv3(p, rng);
+            let b = match rng.below(6) { 0 => a, 1 => -a, _ => uv3(p, rng) };
+            let ty = *rng.pick(&["Quaternion", "Basis3"]);
+            let (tt, ra, rb) = (pb.load(t(ty)), pb.load(Val::V3(a)), pb.load(Val::V3(b)));
+            let r = pb.call("between_vectors", "m", &[tt, ra, rb]);
+            let _ = r;
+        }
+        2 => {
+            let a = uv2(p, rng);
+            let b = match rng.below(6) { 0 => a, 1 => -a, _ => uv2(p, rng) };
+            let (tt, ra, rb) = (pb.load(t("Basis2")), pb.load(Val::V2(a)), pb.load(Val::V2(b)));
+            let r = pb.call("between_vectors", "m", &[tt, ra, rb]);
+            pb.call("rotate_vector", "m", &[r, ra]);
+        }
+        _ => {
+            let scale = |rng: &mut Rng| *rng.pick(&[q(1, 1), q(2, 1), q(1, 3), q(5, 2), q(1, 100), q(100, 1)]);
+            let src = uv3(p, rng) * scale(rng);
+            let dst = match rng.below(6) { 0 => src * small_pos(rng), 1 => -src * small_pos(rng), _ => uv3(p, rng) * scale(rng) };
+            let opposite = src.cross(dst) == Vector3::new(q(0, 1), q(0, 1), q(0, 1)) && src.dot(dst) < q(0, 1);
+            let fb = if opposite && rng.chance(1, 2) {
+                // a unit axis perpendicular to src
+                let (e1, e2, e3) = frame(p, rng);
+                let _ = (e1, e2, e3);
+                let perp = src.cross(Vector3::new(q(1, 1), q(2, 1), q(-2, 1)));
+                let m2 = perp.dot(perp);
+                match (isqrt(m2.n), isqrt(m2.d)) { (Some(a), Some(b)) if a != 0 => Val::OSome(Box::new(Val::V3(perp * q(b, a)))), _ => Val::ONone }
+            } else if !opposite && rng.chance(1, 3) { Val::OSome(Box::new(Val::V3(uv3(p, rng)))) } else { Val::ONone };
+            let (rs, rd, rf) = (pb.load(Val::V3(src)), pb.load(Val::V3(dst)), pb.load(fb));
+            pb.call("from_arc", "m", &[rs, rd, rf]);
+        }
+    }
+}
+
+pub fn drive2(profile: &str, seed: u64, count: usize) -> Vec<String> {
+    let gen: fn(&Pools, &mut Rng, &mut PB) = match profile {
+        "C05" => gen_c05, "C06" => gen_c06, "C07" => gen_c07, "C08" => gen_c08, "C09" => gen_c09, "C10" => gen_c10,
+        "C11" => gen_c11, "C13" => gen_c13, "C14" => gen_c14, "C15" => gen_c15,
+        _ => return Vec::new(),
+    };
+    let p = pools();
+    let mut rng = Rng(seed.wrapping_mul(0x9E3779B97F4A7C15) ^ 0xBADC0DE ^ (profile.as_bytes()[2] as u64) << 8 ^ (profile.as_bytes()[1] as u64) << 16);
+    let mut out = Vec::new();
+    let mut pid = 500_000u64;
+    let mut attempts = 0;
+    while out.len() < count && attempts < count * 5 {
+        attempts += 1;
+        let mut pb = PB::new();
+        gen(&p, &mut rng, &mut pb);
+        pid += 1;
+        if let Some(s) = pb.finish(pid, &["Q", "f64"]) { out.push(s); }
+    }
+    out
 }
